@@ -86,6 +86,7 @@ template<int TI> void j_int_roundtrip(Ctx & c, int64_t nraw, int64_t, int64_t)
   }
 void c04_init()
   {
+  reassign_setup();
   for(int i = 0; i < N_INT; ++i)
     {
     std::string t = INT_TYPES[i].tag;
@@ -98,6 +99,12 @@ void c04_init()
 extern Property P_C04;
 void c04_run(Ctx & c)
   {
+  { const Check & RA = P_C04.checks[P_C04.checks.size() - 1]; const auto & LL = lattice(); uint64_t ridx = 0;
+    for(int64_t k = 8; k <= 12; ++k)
+      {
+      for(int64_t a : LL) if(c.mine(ridx++)) c.run_check(RA, a, 0, k);
+      uint64_t m = c.share(c.n(20000, 2000000)); for(uint64_t i = 0; i < m; ++i) c.run_check(RA, c.rng.logu(), 0, k);
+      } }
   const auto & L = lattice();
   for(int ti = 0; ti < N_INT; ++ti)
     {
@@ -129,7 +136,8 @@ void c04_run(Ctx & c)
 Property P_C04 = { "C04", c04_init, c04_run,
   { C04_CHECKS("int_to_fixed", j_int_to_fixed, "fixed_t{n}, arithmetic_to_fixed, make_fixed, integral_to_fixed, 0+n, n+0 (and _fix literal for int64); a = value of the type"),
     C04_CHECKS("fixed_to_int", j_fixed_to_int, "static_cast<T>, fixed_to_integral<T>, fixed_to_arithmetic<T>; a = finite raw"),
-    C04_CHECKS("int_roundtrip", j_int_roundtrip, "n -> fixed_t -> T for |n| <= 2^31-1") },
+    C04_CHECKS("int_roundtrip", j_int_roundtrip, "n -> fixed_t -> T for |n| <= 2^31-1"),
+    { "reassign", judge_reassign, "static_cast<T>(x) twice in one function with x modified in between (int32, int64, uint16, double, float); c = shape 8..12" } },
   { "int-in-range", "int-out-of-range", "floor-representable", "floor-not-representable", "negative-fraction-to-int", "int-roundtrip" },
   "integer within 2 of +-(2^31-1), 0, or out of range; fixed value whose floor is within 2 of a limit of the target type or a negative fraction; distinct by (value,type)",
   { "every value of int8,uint8,int16,uint16 (int->fixed, round trip)" }, { "every value of int8,uint8,int16,uint16,int32,uint32 (int->fixed)", "every raw in [-2^24,2^24] -> 8/16-bit targets" } };
@@ -168,6 +176,7 @@ template<class FT> void judge_from_float(Ctx & c, std::vector<Fn> & fns, int64_t
   for(auto & f : fns)
     for(size_t ci = 0; ci < g_cfgs.size(); ++ci)
       {
+      if(g_cfgs[ci].fastmath && (std::isnan(dv) || std::isinf(dv))) continue; // -ffast-math builds promise nothing for NaN / inf inputs
       CallRes r = c.call(f.f[ci], bits, 0);
       if(r.sig) { c.signal_event((int)ci, f.entry.c_str(), bits, 0, r.sig); continue; }
       if(en) { if(!model_isnan(r.v)) c.violation(f.entry + (std::isnan(dv) ? "/nan-input/not-nan" : (std::isinf(dv) ? "/inf-input/not-nan" : "/too-large/not-nan")), (int)ci, bits, 0, 0, i2s(r.v), "NaN"); }
